@@ -16,7 +16,7 @@ CLAIM = {
             "an enumerated universe of locations and one-token mutations plus seeded random documents, and the implementation is "
             "additionally compared with the executable RFC 6901 specification on every case.",
     "note": "Trusted: Lean kernel; the hand-written model (validated differentially, sampling beyond the enumerated universe); "
-            "Python unicode-escape codec abstract; uri_decode not modelled; int-like names beyond +-(2^53-1) excluded (known finding).",
+            "Python unicode-escape codec abstract; uri_decode not modelled; int-like names beyond +-(2^53-1) excluded (known finding C04-KF1, with the kernel-checked counterexample resolve_every_node_counterexample); the negative index extension is stated outright (negative_index_extension).",
     "technique": "Lean 4 refinement proof (model of pointer.py vs RFC 6901 evaluator) + differential correspondence",
 }
 LEAN_MODULES = []
